@@ -31,6 +31,7 @@ RULE = (
     "referenced rules, or a multi-condition referent, or aliases with a mapping pipeline, or an "
     "extended condition with >= 2 operators."
 )
+RULE += (" " + 'Pipelines are also scoped to a log source that matches all or none of the rules, and the outer correlation rule may carry group-by and a condition field, which must be mapped like those of the referenced rules.')
 ASSUMPTIONS = [
     "solo queries of referenced rules are computed by the same backend class on fresh objects (isolation, not semantics)",
     "the unit lengths s/m/h/d/w/M/y = 1/60/3600/86400/604800/2629746/31556952 seconds",
